@@ -150,7 +150,136 @@ def run_case(args):
     return res
 
 
+# ---- natural faults: the statement's own operators fail on a poison row / record at position k
+NAT_STATEMENTS = [
+    # (kind, sql template, target table or None, which poison makes it fail)
+    ("query", "select a + a from nf", None, "overflow"),
+    ("query", "select cast(s as int) from nf", None, "cast"),
+    ("query", "select sum(a + a) from nf", None, "overflow"),
+    ("query", "select count(*) from nf where cast(s as int) >= 0", None, "cast"),
+    ("query", "select a + a as c from nf order by c", None, "overflow"),
+    ("query", "select s, count(a + a) from nf group by s", None, "overflow"),
+    ("query", "select count(*) from nf as x join small as y on x.a + x.a = y.k", None, "overflow"),
+    ("query", "select x.id from nf as x where cast(x.s as int) in (select k from small)", None, "cast"),
+    ("insert_select", "insert into sink select a + a, id from nf", "sink", "overflow"),
+    ("insert_select", "insert into sink select cast(s as int), a from nf", "sink", "cast"),
+    ("delete", "delete from nf where a + a > 100", "nf", "overflow"),
+    ("delete", "delete from nf where cast(s as int) = 7", "nf", "cast"),
+]
+# a bad record for COPY FROM: (name, field values for (id, a, s, b))
+COPY_POISON = {
+    "int-text": lambda i: (str(i), "12x", "7", "\\x00"),
+    "int-overflow": lambda i: (str(i), "99999999999", "7", "\\x00"),
+    "blob-bad-hex": lambda i: (str(i), "1", "7", "\\xzz"),
+    "blob-non-ascii": lambda i: (str(i), "1", "7", "\\xa\u00e9"),
+    "too-few-fields": lambda i: (str(i), "1"),
+    "too-many-fields": lambda i: (str(i), "1", "7", "\\x00", "9"),
+}
+
+
+def run_natural_case(args):
+    """Statements whose own operators fail at a poison row (integer overflow, failing cast) and COPY FROM of a file
+    with one bad record, the poison at position k of n rows (first row, around the 1024-row chunk boundary, in a later
+    chunk, last row): the statement must fail and the target table must be unchanged; the same statement without the
+    poison must succeed (otherwise the case says nothing)."""
+    import os
+    from common import scratch_dir, rm
+    seed, idx = args
+    rng = random.Random(f"c15-nat-{seed}-{idx}")
+    engine = "disk" if rng.random() < 0.4 else "mem"
+    mt = 4 if rng.random() < 0.3 else 0
+    layout = DISK_LAYOUTS[rng.choice([0, 2, 3])]
+    res = dict(violations=[], cases=0, failed=0, samples=[], distinct=[], inconclusive=None, kinds=set())
+    n = rng.choice([1200, 2300, 3100])
+    k = rng.choice([0, 1, 1022, 1023, 1024, 1025, n // 2, n - 2, n - 1])
+    k = min(k, n - 1)
+    d = scratch_dir("c15nat")
+    rl = None
+    try:
+        def fresh(poison):
+            x = RL(engine, layout, mt=mt)
+            stmts = ["create table nf(id int, a int, s varchar)", "create table small(k int)", "create table sink(x int, y int)",
+                     "create table cp(id int, a int, s varchar, b blob)",
+                     "insert into small values " + ", ".join(f"({v})" for v in range(0, 40, 3)),
+                     "insert into sink values (1, 1), (2, 2)", "insert into cp values (-1, 0, 'keep', '\\x01')"]
+            rows = [(i, (i * 7) % 400, str((i * 3) % 50)) for i in range(n)]
+            if poison == "overflow":
+                rows[k] = (k, 2000000000, "5")
+            elif poison == "cast":
+                rows[k] = (k, 5, "4x")
+            for i in range(0, n, 700):
+                stmts.append("insert into nf values " + ", ".join(f"({a}, {b}, '{c}')" for a, b, c in rows[i:i + 700]))
+            for st in stmts:
+                r = x.sql(st)
+                if not r["ok"]:
+                    raise RuntimeError(f"setup failed: {st[:60]}: {r.get('err')}")
+            return x
+        which = rng.random()
+        if which < 0.6:
+            kind, q, target, poison = rng.choice(NAT_STATEMENTS)
+            label = f"{kind}:{poison}"
+            # control: without the poison the statement succeeds
+            rl = fresh(None)
+            c = rl.sql(q, timeout=120)
+            rl.close(); rl = None
+            if not c["ok"]:
+                res["inconclusive"] = f"control statement fails: {q[:40]}"
+                return res
+            rl = fresh(poison)
+        else:
+            pname = rng.choice(sorted(COPY_POISON))
+            kind, target, label = "copy_from", "cp", f"copy_from:{pname}"
+            f = os.path.join(d, "in.csv")
+            recs = [(str(i), str(i % 300), str(i % 50), "\\x%02x" % (i % 256)) for i in range(n)]
+            with open(os.path.join(d, "good.csv"), "w", encoding="utf-8") as fh:
+                fh.write("".join(",".join(r) + "\n" for r in recs))
+            recs[k] = COPY_POISON[pname](k)
+            with open(f, "w", encoding="utf-8") as fh:
+                fh.write("".join(",".join(r) + "\n" for r in recs))
+            q = f"copy cp from '{f}' (FORMAT CSV)"
+            rl = fresh(None)
+            c = rl.sql(f"copy cp from '{os.path.join(d, 'good.csv')}' (FORMAT CSV)", timeout=120)
+            cnt = rl.sql("select count(*) from cp")
+            rl.close(); rl = None
+            if not c["ok"] or not cnt["ok"] or int(cnt["rows"][0][0]) != n + 1:
+                res["inconclusive"] = "control COPY FROM of the good file fails"
+                return res
+            rl = fresh(None)
+        before = rl.sql(f"select * from {target}") if target else None
+        r = rl.sql(q, timeout=120)
+        res["cases"] += 1
+        res["kinds"].add(label)
+        res["distinct"].append(h([q.replace(d, ""), n, k, engine, mt]))
+        where = f"poison at row {k} of {n}, {engine}{' mt' if mt else ''}"
+        if r.get("dead"):
+            res["violations"].append(dict(signature=f"natural:process-dies:{label}", what=f"`{q.replace(d, '')[:100]}` ({where}) killed the process: {r['err'][:80]}"))
+            return res
+        if r["ok"]:
+            res["violations"].append(dict(signature=f"natural:ok-despite-failing-row:{label}", what=f"`{q.replace(d, '')[:100]}` ({where}) returned Ok {str(r['rows'][:2])[:80]} ({len(r['rows'])} rows) although one of its rows cannot be evaluated / read"))
+        else:
+            res["failed"] += 1
+        if target:
+            now = rl.sql(f"select * from {target}")
+            if not now["ok"] or not before["ok"] or ms(now["rows"]) != ms(before["rows"]):
+                res["violations"].append(dict(signature=f"natural:failed-dml-changed-table:{label}", what=f"`{q.replace(d, '')[:100]}` ({where}) {'failed' if not r['ok'] else 'returned Ok'} and {target} changed: {len(before.get('rows', []))} -> {len(now.get('rows', []))} rows"))
+        if len(res["samples"]) < 1:
+            res["samples"].append(dict(q=q.replace(d, "")[:100], natural_fault=label, row=k, of=n, engine=engine, outcome="error" if not r["ok"] else "ok"))
+    except Exception as e:
+        res["inconclusive"] = f"harness: {type(e).__name__}: {e}"
+    finally:
+        if rl:
+            rl.close()
+        rm(d)
+    res["kinds"] = sorted(res["kinds"])
+    if res["violations"]:
+        res["witness"] = dict(natural=True, seed=seed, idx=idx)
+    return res
+
+
 def sentinel(w):
+    if w.get("natural"):
+        res = run_natural_case((w["seed"], w["idx"]))
+        return [(v["signature"], v["what"]) for v in res["violations"]]
     res = run_case((w["seed"], w["idx"], w["nq"]))
     return [(v["signature"], v["what"]) for v in res["violations"]]
 
@@ -161,7 +290,10 @@ def run(tier, seed):
     rep.rule = ("statements (generated queries with joins/aggregates/order/limit/subqueries, INSERT..SELECT, DELETE) over a "
                 "1500-3100 row table (several chunks) and a small one, memory and disk engines, current- and multi-thread runtime; "
                 "faults {error,panic} injected at (operator, chunk k in {first, middle, last}) and at end-of-stream; distinct "
-                "non-trivial = distinct (statement, operator, k, fault kind) whose fault actually fired")
+                "non-trivial = distinct (statement, operator, k, fault kind) whose fault actually fired; natural-fault leg: statements "
+                "whose own operators fail on a poison row (i32 overflow, failing cast) and COPY FROM of a file with one bad record "
+                "(bad integer, bad / non-ASCII blob text, wrong field count) at row k of 1200-3100 (first, around the 1024-row chunk "
+                "boundary, later chunk, last), distinct = distinct (statement, n, k, engine, runtime)")
     tot = dict(inj=0, fired=0, failed=0, benign=0, not_fired=0, dml=0)
     ops = set()
     for res in parallel_map(run_case, [(seed, i, nq) for i in range(n)]):
@@ -176,6 +308,24 @@ def run(tier, seed):
             rep.inc(res["inconclusive"][:60])
         for v in res["violations"]:
             rep.add_violation(Violation(v["signature"], v["what"], res.get("witness")))
+    nn = 192 if tier == "quick" else 6000
+    nat = dict(cases=0, failed=0)
+    nat_kinds = set()
+    for res in parallel_map(run_natural_case, [(seed, i) for i in range(nn)]):
+        rep.evaluations += res["cases"]
+        nat["cases"] += res["cases"]
+        nat["failed"] += res["failed"]
+        nat_kinds.update(res["kinds"])
+        rep.distinct.update(res["distinct"])
+        for s in res["samples"]:
+            rep.sample(s, limit=8)
+        if res["inconclusive"]:
+            rep.inc(res["inconclusive"][:60])
+        for v in res["violations"]:
+            rep.add_violation(Violation(v["signature"], v["what"], res.get("witness")))
+    rep.coverage.update(natural_fault_cases=nat["cases"], natural_fault_statement_failed=nat["failed"], natural_fault_kinds=sorted(nat_kinds))
+    rep.floor("natural-fault cases", nat["cases"], nn // 2)
+    rep.floor("natural-fault kinds", len(nat_kinds), 8)
     run_sentinels(rep, sentinel)
     rep.coverage.update(faults_fired=tot["fired"], statement_failed=tot["failed"], ok_with_identical_result=tot["benign"],
                         armed_but_not_reached=tot["not_fired"], operators_injected=sorted(ops), dml_statements=tot["dml"])
